@@ -60,6 +60,8 @@ def conserved(s, out):
 
 # ---- known findings: recognisers of the input shapes they cover (a violation outside these is reported)
 def finding_class(s):
+    if re.search(r'\\begin\s*\{\s*\[tex\]\s*\}', s):
+        return 'D18'
     if re.search(r'\\end\s+[{\[]', s) or re.search(r'\\end\{[^}]*[\\{\[\]$%][^}]*\}', s) or re.search(r'\\end\[', s) \
             or re.search(r'\\end\{\}', s):
         return 'D5'
@@ -149,7 +151,7 @@ def cases(tier, rnd):
             '$a+b$ and \\[x\\]', '\\newcommand{\\x}[1]{#1}', '\\begin{verbatim}\n$ { \\end{verbatim}', 'a % c\nb',
             '\\x[o]{r}{s} t', '{\\bf a}', '\\begin{equation}\\left(a\\right)\\end{equation}']
     out += ['\\begin{a}x\\end {a}y', '\\begin{\\x}x\\end{\\x}', '\\begin[x]{a}b\\end{x}', '\\begin{ a}x\\end{a}',
-            '\\begin{a }x\\end{a}', '\\begin{}\\end{}']
+            '\\begin{a }x\\end{a}', '\\begin{}\\end{}', '\\begin{[tex]}x\\end{[tex]}y']
     for d in docs:
         out.append(d)
         for k in range(len(d)):
